@@ -53,6 +53,8 @@ def run(P, R, tier):
         npure += proto.check_tasks_pure(P, R, own, key, sinks, allow=PURE_ALLOW)
         ncov += proto.check_cover_tasks(P, R, key)
     R.floor("BRANCH sites", nb, 11)
+    from ..engines import proto as _proto
+    R.floor("PARTITION.by-class definitions", _proto.check_class_split(P, R), 2)
     R.floor("COPYBACK sinks", ncb, 6)
     R.floor("PURE tasks", npure, 10)
     # module switches of the linear transforms
@@ -94,6 +96,7 @@ def run(P, R, tier):
     n, rets = dimrun.route(P, R, ["gmm.fit", "km.fit", "km.varw", "gmm.init", "gmm.m_step"], rules=["EXT.", "DIM.BRANCH", "DIM.SHAPE"], where_prefix=["gmm:", "kmeans:", "utils:"])
     for nm in ("km.varw", "km.transform"):
         dimrun.compare_modes(P, R, nm)
+    dimrun.route(P, R, ["wccn.fit", "white.fit"], rules=["DIM.", "EXT."], where_prefix=["wccn:", "whitening:"])
     # the global sample count is taken before the split
     f = P.func("kmeans:KMeansMachine.fit")
     du = get_defuse(f, P)
